@@ -1,3 +1,11 @@
-import GenlmModel.Model.Basic
+import Batteries.Tactic.Alias
+import GenlmModel.Proofs.Wfsa
+/-! # C11 — automaton string weight = sum over accepting paths -/
 namespace Genlm.Props.C11
+/-- the driver's dynamic programme is the path-sum specification (ε arcs and cycles allowed) -/
+alias oracle_is_path_sum := Genlm.PNtab_spec
+/-- the loop of `WFSA.__call__` on an ε-free machine is the sum over accepting paths -/
+alias forward_correct := Genlm.forward_correct
+alias forward_correct_PN := Genlm.forward_correct_PN
+alias epsfree_paths_have_string_length := Genlm.Qk_epsfree_length
 end Genlm.Props.C11
